@@ -534,7 +534,8 @@ class Watcher(object):
         # remove dead or zombie processes first
         for process in list(self.processes.values()):
             if process.status in (DEAD_OR_ZOMBIE, UNEXISTING):
-                self.processes.pop(process.pid)
+                # reap it properly so that its "reap" event is published
+                self.reap_process(process.pid)
 
         if self.max_age:
             yield self.remove_expired_processes()
@@ -553,7 +554,7 @@ class Watcher(object):
                                   key=lambda process: process.started,
                                   reverse=True)[self.numprocesses:]:
                 if process.status in (DEAD_OR_ZOMBIE, UNEXISTING):
-                    self.processes.pop(process.pid)
+                    self.reap_process(process.pid)
                 else:
                     processes_to_kill.append(process)
 
